@@ -936,7 +936,13 @@ def check_frozen(run: Run, prog: Program, roles: BatteryRoles) -> None:
         copy is fine, that does not touch the reported object;
       * before that point only growth inside the result loop is a way of building the set (that growth is
         judged by C15.FAIL / C15.SETS); any other in-place change alters a value the other rules have
-        already read off its defining expression;
+        already read off its defining expression -- except the straight-line BUILDING of a set the function has
+        just created itself (`s = set(x); s -= y`, `.difference_update`, `.discard`, `|=` ... on an object that
+        provably nothing else can hold yet, see `_c15_util.rebind_fresh_builds`): the analysis view reads such a
+        step as the rebinding `s = s - y` it is equivalent to, so C15.SETS reads the value through it.  That is
+        accepted where C15.SETS does read the reported set off its defining expression (the constructor fields of
+        the battery manager's `_distribute_power`); for the sets handed back by the result parser / the sending
+        routine and for the PV accumulators, whose start value no rule reads, it stays a report;
       * a repository function that receives the object (followed through two calls) does not change its
         parameter in place;
       * no method of the two managers writes / changes `<result>.succeeded_components` /
@@ -999,6 +1005,19 @@ def check_frozen(run: Run, prog: Program, roles: BatteryRoles) -> None:
                         f"`{text}` changes {via} in place outside the result loop before it is reported as {what}: the "
                         "set that is reported is not the one its defining expression (addressed - failed / collected per "
                         "failed call) says it is", node=c, file=fn.file)
+            # in-place steps of a fresh build (read as rebindings by the view): fine where the value of the reported
+            # set is decided through its defining expressions (C15.SETS on the battery result constructors) ...
+            for st in body_walk(fn.node):
+                text = getattr(st, "_c15_inplace", None)
+                if text is None or role == "dist" or not isinstance(st, ast.Assign) or u(st.targets[0]) not in aliases:
+                    continue
+                # ... elsewhere nobody reads what the set starts as: still a change outside the result loop
+                bad += 1
+                run.violation(
+                    "C15.FROZEN", fn.qual, st,
+                    f"`{text}` changes `{u(st.targets[0])}` in place outside the result loop before it is reported as {what}: "
+                    "the set that is reported is not the one its defining expression (collected per failed / succeeded "
+                    "call, starting empty) says it is", node=st, file=fn.file)
             if not bad:
                 run.ok("C15.FROZEN", f"{fn.qual}: the object of `{nm}` ({what}) is only changed in place while the "
                                      "result loop builds it")
@@ -1090,6 +1109,21 @@ CONTROLS = [
      "        await asyncio.gather(\n            *[\n                self._component_pool_status_tracker.update_status(\n"
      "                    succeed_batteries, failed_batteries\n",
      "C15.FROZEN"),
+    # the straight-line building of a fresh set is followed (read as the value it computes), so ...
+    ("fresh succeeded set built in place with the wrong operation", "microgrid._power_distributing._component_managers._battery_manager",
+     "succeed_batteries = set(battery_distribution.keys()) - failed_batteries",
+     "succeed_batteries = set(battery_distribution.keys())\n            succeed_batteries &= failed_batteries", "C15.SETS"),
+    # ... but only while nothing else can hold the object
+    ("fresh succeeded set stored elsewhere before it is reduced in place",
+     "microgrid._power_distributing._component_managers._battery_manager",
+     "succeed_batteries = set(battery_distribution.keys()) - failed_batteries",
+     "succeed_batteries = set(battery_distribution.keys())\n            self._last_addressed = succeed_batteries\n"
+     "            succeed_batteries -= failed_batteries", "C15.FROZEN"),
+    # ... and only where the start value of the set is read by a rule
+    ("failed set of the result parser pre-filled in place before the result loop",
+     "microgrid._power_distributing._component_managers._battery_manager",
+     "        failed_batteries: set[int] = set()\n",
+     "        failed_batteries: set[int] = set()\n        failed_batteries |= set(self._bat_invs_map)\n", "C15.FROZEN"),
     ("PV succeeded set cut down in place after the result loop",
      "microgrid._power_distributing._component_managers._pv_inverter_manager._pv_inverter_manager",
      "                succeeded_components.add(component_id)\n                continue\n\n"
@@ -1271,7 +1305,9 @@ def check(run: Run, prog: Program, tier: str) -> str:
              "awaited before results are read; parsed map == sent map")
     run.rule("C15.FROZEN", "the set objects stored in a result (and handed on to the status tracker / back to the "
              "caller) are not changed in place once computed: no in-place set operation on them or an alias after "
-             "the result is built, none outside the result loop before, none in a callee that receives them")
+             "the result is built, none outside the result loop before (other than the straight-line building of a set "
+             "the function has just created and not yet shared, which is read as the value it computes), none in a "
+             "callee that receives them")
     run_rules(run, prog)
     run.floor("C15.FROZEN", 4)
     run.floor("C15.ID", 10)
